@@ -282,11 +282,10 @@ impl ClusterHandler for AdminCommHandler {
             // exchange to complete, then can't accept new ones.
             // `Failsafe::expire` does the actual `remove_pase` call.
             let sess = ctx.exchange().id().session(&mut state.sessions);
-            let expire_sess_id = matches!(
-                sess.get_session_mode(),
-                crate::transport::session::SessionMode::Pase { .. }
-            )
-            .then(|| sess.id());
+            // Our own session must survive (expired) until the response is sent: it is
+            // either a PASE session, or possibly a CASE session on the very fabric
+            // that is being rolled back
+            let expire_sess_id = Some(sess.id());
 
             let removed_fabric = state.failsafe.expire(
                 &mut state.fabrics,
